@@ -21,8 +21,8 @@ structure Own (s : St) : Prop where
 
 /-- positions that only some kinds of goroutine can be in -/
 structure WT (kinds : List Kind) (s : St) : Prop where
-  entry : ∀ i : Nat, s.status[i]? = some Status.atEntry → ∃ t v, kinds[i]? = some (Kind.request t v)
-  frozen : ∀ i : Nat, s.status[i]? = some Status.atFrozen → ∃ t v, kinds[i]? = some (Kind.request t v)
+  entry : ∀ i : Nat, s.status[i]? = some Status.atEntry → ∃ t v g, kinds[i]? = some (Kind.request t v g)
+  frozen : ∀ i : Nat, s.status[i]? = some Status.atFrozen → ∃ t v g, kinds[i]? = some (Kind.request t v g)
   checked : ∀ i : Nat, s.status[i]? = some Status.atChecked → ∃ r, kinds[i]? = some (Kind.register r)
   len : s.status.length = kinds.length
 
@@ -698,8 +698,8 @@ theorem lemma_getElem_set (l : List Status) (i j : Nat) (new x : Status) (h : (l
 
 theorem lemma_wt_set (kinds : List Kind) (s : St) (i : Nat) (new : Status) (core' : Core) (w' : Bool)
     (hW : WT kinds s)
-    (h1 : new = .atEntry → ∃ t v, kinds[i]? = some (Kind.request t v))
-    (h2 : new = .atFrozen → ∃ t v, kinds[i]? = some (Kind.request t v))
+    (h1 : new = .atEntry → ∃ t v g, kinds[i]? = some (Kind.request t v g))
+    (h2 : new = .atFrozen → ∃ t v g, kinds[i]? = some (Kind.request t v g))
     (h3 : new = .atChecked → ∃ r, kinds[i]? = some (Kind.register r)) :
     WT kinds { core := core', status := s.status.set i new, wByFreeze := w' } :=
   { entry := by
@@ -755,9 +755,9 @@ theorem lemma_wt_wakeW (kinds : List Kind) (s : St) (hW : WT kinds s) : WT kinds
         · exact hW.checked j (by rw [h, hj])
     len := by rw [lemma_wakeW_status]; simp [hW.len] }
 
-theorem lemma_afterFreeze_frozen (k : Kind) (h : afterFreeze k = .atFrozen) : ∃ t v, k = Kind.request t v := by
+theorem lemma_afterFreeze_frozen (k : Kind) (h : afterFreeze k = .atFrozen) : ∃ t v g, k = Kind.request t v g := by
   cases k <;> simp [afterFreeze] at h
-  exact ⟨_, _, rfl⟩
+  exact ⟨_, _, _, rfl⟩
 
 theorem lemma_wt_wakeF (kinds : List Kind) (s : St) (hW : WT kinds s) : WT kinds (wakeF kinds s) := by
   have key : ∀ j : Nat, ∀ x : Status, (wakeF kinds s).status[j]? = some x →
@@ -784,8 +784,8 @@ theorem lemma_wt_wakeF (kinds : List Kind) (s : St) (hW : WT kinds s) : WT kinds
         intro j hj
         rcases key j _ hj with h | ⟨k, hk1, hk⟩
         · exact hW.frozen j h
-        · obtain ⟨t, v, rfl⟩ := lemma_afterFreeze_frozen k hk.symm
-          exact ⟨t, v, hk1⟩
+        · obtain ⟨t, v, g, rfl⟩ := lemma_afterFreeze_frozen k hk.symm
+          exact ⟨t, v, g, hk1⟩
       checked := by
         intro j hj
         rcases key j _ hj with h | ⟨k, _, hk⟩
@@ -799,8 +799,8 @@ theorem lemma_wt_core (kinds : List Kind) (s : St) (core' : Core) (w' : Bool) (h
   { entry := hW.entry, frozen := hW.frozen, checked := hW.checked, len := hW.len }
 
 theorem lemma_wt_setStatus (kinds : List Kind) (s : St) (i : Nat) (new : Status) (hW : WT kinds s)
-    (h1 : new = .atEntry → ∃ t v, kinds[i]? = some (Kind.request t v))
-    (h2 : new = .atFrozen → ∃ t v, kinds[i]? = some (Kind.request t v))
+    (h1 : new = .atEntry → ∃ t v g, kinds[i]? = some (Kind.request t v g))
+    (h2 : new = .atFrozen → ∃ t v g, kinds[i]? = some (Kind.request t v g))
     (h3 : new = .atChecked → ∃ r, kinds[i]? = some (Kind.register r)) : WT kinds (setStatus s i new) :=
   lemma_wt_set kinds s i new s.core s.wByFreeze hW h1 h2 h3
 
@@ -808,7 +808,7 @@ theorem lemma_wt_afterFreeze (kinds : List Kind) (s : St) (i : Nat) (k : Kind) (
     (hW : WT kinds s) : WT kinds (setStatus s i (afterFreeze k)) :=
   lemma_wt_setStatus kinds s i _ hW
     (fun h => absurd h (lemma_afterFreeze_ne k).2.2.2.2.1)
-    (fun h => by obtain ⟨t, v, rfl⟩ := lemma_afterFreeze_frozen k h; exact ⟨t, v, hk⟩)
+    (fun h => by obtain ⟨t, v, g, rfl⟩ := lemma_afterFreeze_frozen k h; exact ⟨t, v, g, hk⟩)
     (fun h => absurd h (lemma_afterFreeze_ne k).2.2.2.2.2)
 
 theorem lemma_wt_callFreeze (kinds : List Kind) (s : St) (i : Nat) (k : Kind) (hk : kinds[i]? = some k)
@@ -866,11 +866,11 @@ theorem lemma_wt_step (kinds : List Kind) (s : St) (i : Nat) (k : Kind) (st : St
   | finished => cases k <;> exact hW
   | atEntry =>
     cases k with
-    | request t v => exact lemma_wt_callFreeze kinds s i _ hk hW
+    | request t v g => exact lemma_wt_callFreeze kinds s i _ hk hW
     | _ => exact hW
   | atFrozen =>
     cases k with
-    | request t v => exact lemma_wt_setStatus kinds s i _ hW (by simp) (by simp) (by simp)
+    | request t v g => exact lemma_wt_setStatus kinds s i _ hW (by simp) (by simp) (by simp)
     | _ => exact hW
   | atChecked =>
     cases k with
@@ -879,7 +879,7 @@ theorem lemma_wt_step (kinds : List Kind) (s : St) (i : Nat) (k : Kind) (st : St
     | _ => exact hW
   | start =>
     cases k with
-    | request t v => exact lemma_wt_setStatus kinds s i _ hW (fun _ => ⟨t, v, hk⟩) (by simp) (by simp)
+    | request t v g => exact lemma_wt_setStatus kinds s i _ hW (fun _ => ⟨t, v, g, hk⟩) (by simp) (by simp)
     | freeze => exact lemma_wt_callFreeze kinds s i _ hk hW
     | warmup =>
       simp only [stepActor]
@@ -915,11 +915,11 @@ theorem lemma_own_step (kinds : List Kind) (s : St) (i : Nat) (k : Kind) (st : S
   | finished => cases k <;> exact hO
   | atEntry =>
     cases k with
-    | request t v => exact lemma_own_callFreeze s i _ .atEntry hs rfl hO
+    | request t v g => exact lemma_own_callFreeze s i _ .atEntry hs rfl hO
     | _ => exact hO
   | atFrozen =>
     cases k with
-    | request t v => exact lemma_own_set_neutral s i .atFrozen .finished hs rfl rfl s.core rfl rfl hO
+    | request t v g => exact lemma_own_set_neutral s i .atFrozen .finished hs rfl rfl s.core rfl rfl hO
     | _ => exact hO
   | atChecked =>
     cases k with
@@ -929,7 +929,7 @@ theorem lemma_own_step (kinds : List Kind) (s : St) (i : Nat) (k : Kind) (st : S
     | _ => exact hO
   | start =>
     cases k with
-    | request t v => exact lemma_own_set_neutral s i .start .atEntry hs rfl rfl s.core rfl rfl hO
+    | request t v g => exact lemma_own_set_neutral s i .start .atEntry hs rfl rfl s.core rfl rfl hO
     | freeze => exact lemma_own_callFreeze s i _ .start hs rfl hO
     | warmup =>
       have := lemma_own_warmupStart s i hs hO
@@ -991,7 +991,7 @@ theorem lemma_eff_neutral (kinds : List Kind) (s : St) (i : Nat) (st : Status) (
   rcases hst with rfl | rfl | rfl | rfl
   · -- start
     cases k with
-    | request t v =>
+    | request t v g =>
       exact lemma_status_differs s _ i _ _ hs (lemma_setStatus_self s i .atEntry hi) (by simp)
     | freeze =>
       obtain ⟨b, hb, hb'⟩ := lemma_callFreeze_status s i .freeze hi
@@ -1016,13 +1016,13 @@ theorem lemma_eff_neutral (kinds : List Kind) (s : St) (i : Nat) (st : Status) (
     | urlFor r => exact lemma_status_differs s _ i _ _ hs (lemma_setStatus_self s i .finished hi) (by simp)
     | whereBad r => exact lemma_status_differs s _ i _ _ hs (lemma_setStatus_self s i .finished hi) (by simp)
   · -- atEntry: a request
-    obtain ⟨t, v, hk'⟩ := hW.entry i hs
+    obtain ⟨t, v, g, hk'⟩ := hW.entry i hs
     rw [hk] at hk'
     cases hk'
-    obtain ⟨b, hb, hb'⟩ := lemma_callFreeze_status s i (.request t v) hi
+    obtain ⟨b, hb, hb'⟩ := lemma_callFreeze_status s i (.request t v g) hi
     refine lemma_status_differs s _ i _ b hs hb ?_
     rcases hb' with rfl | rfl | rfl <;> simp [afterFreeze]
-  · obtain ⟨t, v, hk'⟩ := hW.frozen i hs
+  · obtain ⟨t, v, g, hk'⟩ := hW.frozen i hs
     rw [hk] at hk'
     cases hk'
     exact lemma_status_differs s _ i _ _ hs (lemma_setStatus_self s i .finished hi) (by simp)
